@@ -1,3 +1,4 @@
+#define _GNU_SOURCE
 /* E2 family "strings" (C14): arbitrary phrases, passwords and buffers are handled safely and totally.
  * Small-scope exhaustive: (a) all strings up to length L over a 9-byte alphabet (ASCII letter, space,
  * UTF-8 lead / continuation bytes of 2- and 3-byte sequences, an invalid byte); (b) the same tails
@@ -7,6 +8,7 @@
  * termination (watchdog). */
 #include "h.h"
 #include <unistd.h>
+#include <sys/mman.h>
 static const char *CLS[] = { "ok", "num_words", "lang", "checksum", "unsupported", "format(!)", "memory(!)", "mult_lang", "crypt_calls", NULL };
 static const unsigned char ALPHA[9] = { 'a', ' ', 0xC3, 0xA9, 0xCC, 0x81, 0xE3, 0x80, 0xFF };
 static polyseed_data *SEED; static uint8_t SEED_ST[32];
@@ -98,7 +100,8 @@ static void work_c(long lo, long hi, struct res *r, void *arg) {
     static char buf[4096];
     for (long x = lo; x < hi; x++) {
         if ((x & 63) == 0 && past_deadline()) { r->timed_out = 1; return; }
-        int fam = (int)(x % 6); long n = x / 6; size_t len = 0;
+        int fam = (int)(x % 7); long n = x / 7; size_t len = 0;
+        if (fam != 6 && n >= 2 * (long)PSTR + 80) continue;      /* families 0-5 range over lengths up to twice the buffer size */
         long near = (long)PSTR;
         switch (fam) {
         case 0: len = (size_t)n; memset(buf, 'a', len); break;
@@ -108,11 +111,17 @@ static void work_c(long lo, long hi, struct res *r, void *arg) {
             long L = near - 24 + n % 49, off = (n / 49); len = (size_t)L; memset(buf, 'a', len); if (off + 1 < L) { buf[off] = (char)0xC3; buf[off + 1] = (char)0xA9; } } break;
         case 4: { /* 16 valid tokens followed by padding that pushes a 17th token across the cut */
             long L = n; size_t pl = strlen(PRE[0][1]); memcpy(buf, PRE[0][1], pl); len = pl; buf[len++] = ' '; memcpy(buf + len, "abandon", 7); len += 7; while ((long)len < L && len < sizeof buf - 8) buf[len++] = (n & 1) ? ' ' : 'x'; if ((long)len >= L && (n % 3) == 0 && len < sizeof buf - 8) { buf[len++] = ' '; buf[len++] = 'z'; } } break;
-        case 5: { /* token counts 0..20 x token lengths {0,1,4,40} */
-            int cntk = (int)(n % 21), tl = (int[]){ 0, 1, 4, 40 }[(n / 21) % 4]; len = 0; for (int i = 0; i < cntk; i++) { if (i) buf[len++] = ' '; memcpy(buf + len, "abandonabandonabandonabandonabandonabandon", (size_t)tl); len += (size_t)tl; } } break;
+        case 6: { /* exactly 16 tokens, one of them long (1..520 bytes, ASCII letters / accented letters / ASCII then accent), the others one letter: the whole
+                   * phrase fits the buffer, so every lookup stage sees the long token */
+            int L = 1 + (int)(n % 520), pos = (int[]){ 0, 7, 15 }[(n / 520) % 3], kind = (int)((n / 1560) % 3); if (n >= 4680) { len = sizeof buf; break; }
+            len = 0; for (int i = 0; i < 16; i++) { if (i) buf[len++] = ' '; if (i != pos) { buf[len++] = "abcdefghijklmnop"[i]; continue; }
+                for (int j = 0; j < L; j++) { if (kind == 1 && j + 1 < L && (j % 3) == 1) { buf[len++] = (char)0xCC; buf[len++] = (char)0x81; j++; } else if (kind == 2 && j == L - 2 && L >= 2) { buf[len++] = (char)0xC3; buf[len++] = (char)0xA9; j++; } else buf[len++] = (char)('a' + j % 26); } }
+            } break;
+        case 5: { /* token counts 0..20 x token lengths {0,1,2,3,4,5,6,9,33,34,40} */
+            int cntk = (int)(n % 21), tl = (int[]){ 0, 1, 2, 3, 4, 5, 6, 9, 33, 34, 40 }[(n / 21) % 11]; len = 0; for (int i = 0; i < cntk; i++) { if (i) buf[len++] = ' '; memcpy(buf + len, "abandonabandonabandonabandonabandonabandon", (size_t)tl); len += (size_t)tl; } } break;
         }
         if (len >= sizeof buf) continue;
-        feed(buf, len, r, (uint64_t)x + (2ull << 40), fam <= 3);
+        feed(buf, len, r, (uint64_t)x + (2ull << 40), fam <= 3 || fam == 6);
     }
     if (r->nsample < 1 && lo < hi) res_sample(r, "lengths 0..2*sizeof(polyseed_str)+80 of 'a', 'a ', e-acute; a non-ASCII character at every offset for lengths around the buffer size; 17th token across the cut; token counts x token lengths");
 }
@@ -133,6 +142,56 @@ static void work_d(long lo, long hi, struct res *r, void *arg) {
     if (r->nsample < 1 && lo < hi) res_sample(r, "valid phrases of seeds with feature values 0..31 x 10 languages x enabled masks 7, 0, 2 (as emitted and decomposed)");
 }
 
+/* (e) strings longer than 2^31 and 2^32 bytes (a length kept in an int or unsigned wraps): a 2 MiB pattern mapped read-only again and
+ * again, terminated at the chosen length.  The first 543 bytes are ASCII, so what the library may look at is fixed and the expected
+ * results are those of the first 600 bytes; a write into the input or a read past its end faults */
+static const uint64_t HUGE_LEN[] = { (1ull << 31) - 1, 1ull << 31, (1ull << 31) + 1, (1ull << 32) - 1, 1ull << 32, (1ull << 32) + 7, (1ull << 32) + (1ull << 31) + 3 };
+#define CHUNK (2u << 20)
+static char *huge_string(uint64_t L, int pattern) {
+    int fd = memfd_create("pat", 0); if (fd < 0 || ftruncate(fd, CHUNK)) return NULL;
+    char *c = mmap(NULL, CHUNK, PROT_READ | PROT_WRITE, MAP_SHARED, fd, 0); if (c == MAP_FAILED) return NULL;
+    if (pattern == 0) memset(c, 'a', CHUNK); else for (size_t i = 0; i < CHUNK; i += 8) memcpy(c + i, "abandon ", 8);
+    munmap(c, CHUNK);
+    uint64_t total = (L + 1 + CHUNK - 1) / CHUNK * CHUNK;
+    char *base = mmap(NULL, total + 4096, PROT_NONE, MAP_PRIVATE | MAP_ANONYMOUS | MAP_NORESERVE, -1, 0); if (base == MAP_FAILED) return NULL;
+    for (uint64_t off = 0; off < total; off += CHUNK) {
+        int last = off + CHUNK >= total;
+        if (mmap(base + off, CHUNK, last ? PROT_READ | PROT_WRITE : PROT_READ, MAP_PRIVATE | MAP_FIXED, fd, 0) == MAP_FAILED) return NULL;
+        if (last) { base[L] = 0; mprotect(base + off, CHUNK, PROT_READ); }
+    }
+    close(fd);
+    return base;      /* the page after the string stays PROT_NONE */
+}
+static void work_e(long lo, long hi, struct res *r, void *arg) {
+    (void)arg;
+    for (long x = lo; x < hi; x++) {
+        uint64_t L = HUGE_LEN[x / 2]; int pattern = (int)(x % 2);
+        char rep[80], key[100]; snprintf(rep, sizeof rep, "huge %ld", x);
+        extern char *G_cur; if (G_cur) strcpy(G_cur, rep);
+        char *s = huge_string(L, pattern); r->cases++;
+        if (!s) { res_sample(r, "could not map %llu bytes; case skipped", (unsigned long long)L); r->timed_out = 1; continue; }
+        char head[601]; memcpy(head, s, 600); head[600] = 0;
+        alarm(120);
+        for (int k = -1; k < 2; k++) {
+            polyseed_data *d = NULL; const polyseed_lang *lo_ = NULL; env_clear_log();
+            int st = k < 0 ? polyseed_decode(s, 0, &lo_, &d) : polyseed_decode_explicit(s, 0, polyseed_get_lang(k ? 3 : 0), &d); r->calls++;
+            if (st == POLYSEED_OK) polyseed_free(d);
+            int want = ref_decode(head, 0, k < 0 ? -1 : (k ? 3 : 0), 7, 0, CAP, NULL, NULL);
+            if (st != want) { snprintf(key, sizeof key, "c14:huge-string:%d->%d", want, st); res_viol(r, key, rep, "a string of %llu bytes (%s): %s returned %d, the same string cut to 600 bytes gives %d", (unsigned long long)L, pattern ? "\"abandon \" repeated" : "the letter a repeated", k < 0 ? "decode" : "decode_explicit", st, want); goto next; }
+            if (ledger_live() != 1) { res_viol(r, "c14:ledger", rep, "blocks left allocated after decoding a string of %llu bytes", (unsigned long long)L); ledger_drop_all(); SEED = NULL; polyseed_load(SEED_ST, &SEED); goto next; }
+            if (st >= 0 && st < 8) r->cls[st]++;
+        }
+        env_clear_log(); polyseed_crypt(SEED, s); r->calls++; r->cls[8]++;
+        if (E.n_kdf != 1 || E.kdf.pwlen != CAP || memcmp(E.kdf.pw, head, CAP)) { res_viol(r, "c14:huge-password", rep, "a password of %llu bytes: the KDF was called %lu times with %zu bytes (expected the first %zu bytes, once)", (unsigned long long)L, E.n_kdf, E.kdf.pwlen, (size_t)CAP); goto next; }
+        polyseed_crypt(SEED, s); { uint8_t st2[32]; polyseed_store(SEED, st2); r->calls += 2; if (memcmp(st2, SEED_ST, 32)) { res_viol(r, "c14:crypt-involution", rep, "crypt twice with a password of %llu bytes does not restore the seed", (unsigned long long)L); polyseed_free(SEED); SEED = NULL; polyseed_load(SEED_ST, &SEED); goto next; } }
+        r->validated++;
+    next:
+        alarm(0);
+        munmap(s, (L + 1 + CHUNK - 1) / CHUNK * CHUNK + 4096);
+    }
+    if (r->nsample < 1 && lo < hi) res_sample(r, "NUL-terminated strings of 2^31-1 .. 2^32+2^31+3 bytes (read-only mappings): decode, decode_explicit, crypt");
+}
+
 int main(int argc, char **argv) {
     int a = common_args(argc, argv);
     ref_init(VERIF_ROOT); sec_mark_initial(); env_init(); inject(0); polyseed_enable_features(7);
@@ -140,6 +199,7 @@ int main(int argc, char **argv) {
     polyseed_create(0, &SEED); polyseed_store(SEED, SEED_ST);
     rseed base; rseed_from_storage(SEED_ST, &base);
     for (int li = 0; li < R_NLANG; li++) for (int w = 0; w < 3; w++) { char ph[2048]; ref_phrase(&base, li, 0, ph, 2); int sp = 0; size_t i; for (i = 0; ph[i]; i++) if (ph[i] == ' ' && ++sp == 14 + w) break; ph[i] = 0; strcpy(PRE[li][w], ph); }
+    if (a + 1 < argc && !strcmp(argv[a], "huge")) { long x = atol(argv[a + 1]); work_e(x, x + 1, r, NULL); for (int i = 0; i < r->nviol; i++) printf("REPRODUCED %s: %s\n", r->v[i].key, r->v[i].msg); return r->nviol ? 1 : 0; }
     if (a < argc && !strcmp(argv[a], "case")) {
         static char s[1400]; int n = unhexn(argv[a + 2], (uint8_t *)s, sizeof s - 1); if (n < 0) n = 0;
         { uint64_t id = strtoull(argv[a + 1], NULL, 10); if ((id >> 40) == 3) EXPL[3] = (int)(((id & 0xFFFFFFFFu) / 32) % R_NLANG); }
@@ -153,8 +213,9 @@ int main(int argc, char **argv) {
     out_begin();
     par_run(na, work_a, NULL, r); out_part("a: all strings up to the length bound over the 9-byte alphabet", r, CLS, "");
     memset(r, 0, sizeof *r); par_run(nb * 3 * R_NLANG, work_b, NULL, r); out_part("b: valid 14-, 15- and 16-token phrases of every language + every tail", r, CLS, "");
-    memset(r, 0, sizeof *r); par_run(6L * (2 * (long)PSTR + 80), work_c, NULL, r); out_part("c: boundary-length families", r, CLS, "");
+    memset(r, 0, sizeof *r); par_run(7L * 4680, work_c, NULL, r); out_part("c: boundary-length families", r, CLS, "");
     memset(r, 0, sizeof *r); par_run(1920, work_d, NULL, r); out_part("d: well-formed phrases with each of the 32 feature values, every language, three enabled masks", r, CLS, "");
+    memset(r, 0, sizeof *r); par_run(14, work_e, NULL, r); out_part("e: strings of 2^31 and 2^32 bytes and their neighbours", r, CLS, "lengths that do not fit an int / unsigned");
     out_kv_int("alphabet", 9); out_kv_int("max_len_a", LMAX); out_kv_int("max_tail_b", LB);
     out_end();
     return 0;
